@@ -1,7 +1,7 @@
 (* C06 — truncated or mistyped input is rejected, never decoded into made-up data. Statements only. *)
 From Coq Require Import List NArith ZArith.
 From TarsV Require Import Base.Hex Codec.Wire Codec.Skip Codec.Prim Codec.PrimProofs Codec.GenCodec Codec.Corr Codec.GenProofs
-  Codec.RoundTrip Codec.RoundTripProofs Codec.PrefixProofs Codec.PrefixGenProofs Codec.RoundTripExamples Codec.Damage Codec.DamageProofs Codec.CanonExamples Codec.CorrT Gen.Schemas.
+  Codec.RoundTrip Codec.RoundTripProofs Codec.PrefixProofs Codec.PrefixGenProofs Codec.RoundTripExamples Codec.Damage Codec.DamageProofs Codec.TypedProofs Codec.CanonExamples Codec.CorrT Gen.Schemas.
 From TarsV Require Xlate.ReaderSliceEquiv.
 Import ListNotations.
 Open Scope N_scope.
@@ -168,6 +168,24 @@ Theorem C06_inflated_string_rejected : forall e k n sid fds1 fd fds2 vs1 (four :
   tfin n e (TStruct sid) = true -> (tneed n e (TStruct sid) + k <= 64)%nat ->
   decode e sid (enc_fields e vs1 fds1 ++ (if four then head tSTR4 (ftag fd) ++ be 4 l else head tSTR1 (ftag fd) ++ [l]) ++ r) = DErr.
 Proof. exact PrefixProofs.inflated_string_rejected. Qed.
+(* NEVER MADE-UP DATA, typing half: whatever the input (any bytes < 256, shorter than 2^31) and whatever the target
+   held, a value the decoder returns is a value of the struct's IDL type - every integer within the range of its Go
+   type (no wrong sign extension, no wrap), float bit patterns of the member's width, strings and byte vectors no
+   longer than the input, vectors and maps with a count the input can hold, fixed arrays of exactly the declared
+   length, struct members typed by the schema, recursively - and the unread rest is a suffix of the input. Every
+   wf_schema environment with typed defaults and expressible array lengths, every struct type with a finite type graph. *)
+Theorem C06_decode_typed : forall e k, wf_schema k e -> defaults_typed e -> arrs_ok e -> forall n sid prior bs v r,
+  (S k <= 64)%nat -> tfin n e (TStruct sid) = true -> (tneed n e (TStruct sid) + k <= 64)%nat ->
+  bytes_ok bs -> lenok bs -> decode_into e sid prior bs = DOk v r -> has_type e (TStruct sid) v /\ sfx r bs.
+Proof. exact TypedProofs.decode_typed. Qed.
+Theorem C06_code_schemas_decode_typed : forall sid prior bs v r, fits_model sid = true -> bytes_ok bs -> lenok bs ->
+  decode_into env0 sid prior bs = DOk v r -> has_type env0 (TStruct sid) v /\ sfx r bs.
+Proof. exact CanonExamples.env0_decode_typed. Qed.
+(* the scalar readers alone, any bytes: the value is in the member type's range *)
+Theorem C06_scalar_typed : forall f tag req t prior bs v r, scalar_ty t = true -> sc_typed t prior -> bytes_ok bs -> lenok bs ->
+  dec_scalar f tag req t prior bs = DOk v r -> sc_typed t v /\ sfx r bs.
+Proof. exact TypedProofs.dec_scalar_typed. Qed.
+
 (* DAMAGE AT ANY DEPTH (Codec/Damage.v). spot: a field under the member's tag that the reader of the member's IDL
    type refuses on its own - a wire type it does not accept (the single-field wire-type substitution), or a string
    length / byte-vector count / list count / map count / fixed-array count announcing more than is left - followed by
@@ -226,3 +244,6 @@ Print Assumptions C06_damage_rejected.
 Print Assumptions C06_damaged_member.
 Print Assumptions C06_code_schemas_damage_rejected.
 Print Assumptions C06_damage_examples.
+Print Assumptions C06_decode_typed.
+Print Assumptions C06_code_schemas_decode_typed.
+Print Assumptions C06_scalar_typed.
